@@ -1,5 +1,7 @@
 import RTV.Drv.Match
+import RTV.Drv.Timex
 import RTV.Drv.Factory
+import RTV.Drv.Re
 /-! Model driver: one operation per input line (tab-separated), one answer line per operation.
 Run compiled (`.lake/build/bin/rtvdriver`) or with `lake env lean --run Driver.lean`. -/
 open RTV.Drv
@@ -9,6 +11,8 @@ def dispatch (line : String) : String :=
   | op :: args =>
     (dispatchMatch op args
       <|> dispatchFactory op args
+      <|> dispatchRe op args
+      <|> dispatchTimex op args
       -- <|> dispatchOther op args   (one alternative per layer)
       ).getD "bad-op"
   | _ => "bad-op"
